@@ -857,6 +857,12 @@ func (e *c04Eng) spawn(o c04Op) *c04Thread {
 				&replyWriter{write: func(*protocol.Reply) {}})
 			if err == nil {
 				c.triggerConnect()
+			} else if d, ok := disconnectFromError(err); ok && d.Code != DisconnectConnectionClosed.Code {
+				// what the command dispatcher does with a Disconnect returned by a handler
+				e.mu.Lock()
+				e.expectClosing = true
+				e.mu.Unlock()
+				go func() { _ = c.close(*d) }()
 			}
 		}
 	}
